@@ -50,14 +50,14 @@ fn sfl_none(
 // Value ranges of the step harnesses. Balances are whole shares, money has 2
 // decimals, FX rates 2 decimals. SAT time is governed by the widths of the
 // multiplier operands, so the quick tier uses 4-7 bit operands and the
-// thorough tier 7-14 bits.
+// thorough tier 6-12 bits.
 use crate::kani_model::tier::WIDE;
-const BAL_MAX: i64 = if WIDE { 100 } else { 15 };
-const ACB_MAX: i64 = if WIDE { 10000 } else { 1000 }; // 100.00 / 10.00
-const N_MAX: i64 = if WIDE { 100 } else { 15 };
-const PRICE_MAX: i64 = if WIDE { 1000 } else { 100 }; // 10.00 / 1.00
-const COMM_MAX: i64 = if WIDE { 100 } else { 15 }; // 1.00 / 0.15
-const RATE_MAX: i64 = if WIDE { 200 } else { 31 }; // 2.00 / 0.31
+const BAL_MAX: i64 = if WIDE { 63 } else { 15 };
+const ACB_MAX: i64 = if WIDE { 4000 } else { 1000 }; // 40.00 / 10.00
+const N_MAX: i64 = if WIDE { 63 } else { 15 };
+const PRICE_MAX: i64 = if WIDE { 500 } else { 100 }; // 5.00 / 1.00
+const COMM_MAX: i64 = if WIDE { 63 } else { 15 }; // 0.63 / 0.15
+const RATE_MAX: i64 = if WIDE { 127 } else { 31 }; // 1.27 / 0.31
 
 struct Money {
     usd_tx: bool,
